@@ -75,6 +75,15 @@ def oracle : List StepRec → Nat → Option String
     | none => oracle rs (i + 1)
 
 def handle (args out : List String) : Verdict :=
+  -- measurement of the socket side (no model): every handler call of the real UDP server carries one sent payload
+  -- with exactly its sender's address
+  if args.head? = some "udpglue" then
+    (match out with
+     | [ws, un, du, dl] =>
+       if ws == "wrong-source:0" && un == "unknown-payload:0" && du == "duplicate:0" && dl.startsWith "delivered:" && !dl.startsWith "delivered:0/"
+       then .agree else .disagreeFails s!"sig=udp-wrong-source {ws} {un} {du} {dl}"
+     | _ => .bad "C05 udpglue shape")
+  else
   match records args out with
   | none => .bad "C05 shape"
   | some recs =>
